@@ -351,7 +351,7 @@ func init() {
 			}
 		}
 		text("Ring", "Each", "scan(r, func(cur *Ring[T]) bool { return f(cur.Value) })")
-		text("Ring", "Len", "if r == nil { return 0 }", "var n int", "scan(r, func(*Ring[T]) bool { n++; return true })", "return n")
+		text("Ring", "Len", "if r == nil { return 0 }", "n := 0", "scan(r, func(*Ring[T]) bool { n++; return true })", "return n")
 		text("Ring", "IsEmpty", "return r == nil")
 	}})
 }
